@@ -210,7 +210,8 @@ def _ret_eval(ret: Any, env: Dict[str, Any], ev: Callable[[Any, Dict[str, Any]],
     raise ValueError(ret)
 
 
-def build(P: Dict[str, Any], *, is_async: bool = False, mc: int = 1, decorate_attrs: bool = True) -> Built:
+def build(P: Dict[str, Any], *, is_async: bool = False, mc: int = 1, decorate_attrs: bool = True,
+          on_stmt: Optional[Callable[[int], None]] = None, xns_out: Optional[Dict[str, Any]] = None) -> Built:
     """Build the DAG described by P.  ``decorate_attrs=False`` leaves priority / is_sequential at their
     defaults so that they can be applied later through config_from_*."""
     import tawazi
@@ -238,7 +239,9 @@ def build(P: Dict[str, Any], *, is_async: bool = False, mc: int = 1, decorate_at
 
     def describe(*params: Any) -> Any:
         env: Dict[str, Any] = {name: val for (name, _d), val in zip(P["params"], params)}
-        for st in P["body"]:
+        for idx, st in enumerate(P["body"]):
+            if on_stmt is not None:
+                on_stmt(idx)  # statement boundary: the harness may pause the description here
             k = st["k"]
             if k == "call":
                 args = [_ev_build(a, env) for a in st["args"]]
@@ -494,4 +497,22 @@ def observations(ex: sched.Exec) -> List[Tuple[str, str, Tuple[Any, ...], Tuple[
     for e in ex.events:
         if e["k"] == "ENTER":
             out.append((e["fn"], e["site"], tuple(e["args"]), tuple(sorted(e["kwargs"].items(), key=lambda t: t[0]))))
+    return out
+
+
+def foreign_objects(v: Any, depth: int = 0) -> List[str]:
+    """Descriptions of tawazi objects (e.g. UsageExecNode) found inside a value that should be plain data.
+    Comparing such objects with == would invoke tawazi's operator overloading."""
+    out: List[str] = []
+    if depth > 6:
+        return out
+    mod = type(v).__module__ or ""
+    if mod.startswith("tawazi"):
+        return [f"{type(v).__name__}({getattr(v, 'id', '')})"]
+    if isinstance(v, (tuple, list)):
+        for x in v:
+            out.extend(foreign_objects(x, depth + 1))
+    elif isinstance(v, dict):
+        for x in v.values():
+            out.extend(foreign_objects(x, depth + 1))
     return out
